@@ -500,7 +500,7 @@ pub fn run(chk: Check) -> ! {
                 for f in files {
                     let st = std::process::Command::new(&exe).args(["C05", "--child", &lim.to_string(), "--replay", &f.to_string_lossy()]).env("VERIF_CHILD", "1").status();
                     if matches!(st, Ok(s) if s.code().is_none()) {
-                        let dir = verif_root().join("replays").join("C05");
+                        let dir = out_root().join("replays").join("C05");
                         let _ = std::fs::create_dir_all(&dir);
                         let dest = dir.join(format!("abort-limit{lim}-{}.json", f.file_stem().map(|s| s.to_string_lossy().to_string()).unwrap_or_default()));
                         let _ = std::fs::copy(&f, &dest);
@@ -561,7 +561,7 @@ pub fn run(chk: Check) -> ! {
         ("wall_s".into(), Js::Num(format!("{wall:.2}"))),
         ("violations".into(), Js::int(violations)),
     ]);
-    let path = verif_root().join("evidence").join("C05.json");
+    let path = out_root().join("evidence").join("C05.json");
     let _ = std::fs::create_dir_all(path.parent().unwrap());
     if let Err(e) = std::fs::write(&path, ev.render()) {
         infra(&format!("cannot write evidence: {e}"));
